@@ -35,26 +35,24 @@ N == Len(Cases)
 FoldErrors == DocErrors
 Nil == [kind |-> "nil"]
 
-Judge(i) ==
-  LET c == Cases[i]
-      r == Rec[i]
-      tp == TypeProg(c.prog)
-      sacc == ~IsRej(tp)
-      base == [i |-> i, id |-> c.id, neg |-> c.negative,
-               spec |-> IF sacc THEN Wire(tp.t) ELSE [k |-> "reject", why |-> tp.why],
-               impl |-> IF r.accepted THEN r.st ELSE [k |-> "reject", why |-> r.class]]
-      With(kind, eq) == [kind |-> kind, eq |-> eq] @@ base
-  IN IF r.i # i \/ r.id # c.id THEN With("tool", FALSE)          \* records and cases out of step
-     ELSE IF r.class = "render" THEN With("tool", FALSE)
-     ELSE IF r.class = "syntax" THEN With(IF sacc THEN "tool" ELSE "d-syntax", FALSE)
-     ELSE IF r.class \in {"parse-panic", "type-panic"} THEN With("panic", FALSE)
-     ELSE IF ~r.accepted /\ r.class \in FoldErrors THEN With("fold", FALSE)
-     ELSE IF sacc /\ r.accepted THEN
-            LET it == Unwire(r.st) IN
-            IF Matches(it, tp.t) THEN With("a", it = tp.t) ELSE With("a-dev", FALSE)
-     ELSE IF sacc THEN With("b", FALSE)
-     ELSE IF r.accepted THEN With("c", FALSE)
-     ELSE With("d", FALSE)
+Kind(c, r, i, sacc, it, st) ==
+  IF r.i # i \/ r.id # c.id THEN "tool"                                 \* records and cases out of step
+  ELSE IF r.class = "render" THEN "tool"
+  ELSE IF r.class = "syntax" THEN (IF sacc THEN "tool" ELSE "d-syntax")
+  ELSE IF r.class \in {"parse-panic", "type-panic"} THEN "panic"
+  ELSE IF ~r.accepted /\ r.class \in FoldErrors THEN "fold"
+  ELSE IF sacc /\ r.accepted THEN (IF Matches(it, st) THEN "a" ELSE "a-dev")
+  ELSE IF sacc THEN "b"
+  ELSE IF r.accepted THEN "c"
+  ELSE "d"
+\* tp: the specification's judgement of the case's program
+Verdict(c, r, i, tp) ==
+  [kind |-> Kind(c, r, i, ~IsRej(tp), IF r.accepted THEN Unwire(r.st) ELSE TNever, IF IsRej(tp) THEN TNever ELSE tp.t),
+   eq |-> ~IsRej(tp) /\ r.accepted /\ Unwire(r.st) = tp.t,
+   i |-> i, id |-> c.id, neg |-> c.negative,
+   spec |-> IF IsRej(tp) THEN [k |-> "reject", why |-> tp.why] ELSE Wire(tp.t),
+   impl |-> IF r.accepted THEN r.st ELSE [k |-> "reject", why |-> r.class]]
+Judge(i) == Verdict(Cases[i], Rec[i], i, TypeProg(Cases[i].prog))
 
 Dev == PrintT(<<"DEV", ToJson(v)>>) /\ FALSE
 
